@@ -20,6 +20,7 @@ pub fn get(id: &str) -> Option<Box<dyn Engine>> {
         "C01" => Some(Box::new(docs::C01)),
         "C02" => Some(Box::new(docs::C02)),
         "C03" => Some(Box::new(docs::C03)),
+        "C07" => Some(Box::new(docs::C07)),
         "C12" => Some(Box::new(reqs::C12)),
         "C11" => Some(Box::new(sched::C11)),
         "C14" => Some(Box::new(names::C14)),
